@@ -342,6 +342,18 @@ def run(tier, replay=None):
         stats["geometry_cases"] = len(cases)
 
     search(250 if thorough else 40, "q", CONFIGS + CONFIGS_ODD)
+    if not replay:
+        # the same framing contract on the modulator link's client side (narwhal_common::client reader)
+        import linklib as ll
+        oc = ll.opacity_cases(r, 120 if thorough else 24)
+        oobs, oout = ll.run_client(oc, tag="c10op")
+        if oobs is None:
+            violations.append(("s2mclient harness crashed or hung: " + oout[-300:], {"cases": oc[:2]}))
+        else:
+            stats["client_opacity_cases"] = len(oc)
+            for c, ob in zip(oc, oobs):
+                for what, j in ll.opacity_monitor(c, ob):
+                    violations.append(("client read path: " + what, {"client_case": c}))
     if ok_model and not replay:
         geo_check("geo")
     if (broken or disagreements) and not violations and not replay:
@@ -361,7 +373,7 @@ def run(tier, replay=None):
              "pool geometry: floor(x*0.5) modelled as x/2 (exact below 2^53)"]
     if violations:
         what, c = violations[0]
-        rp = write_replay(PROP, "violation", {"what": what, "cases": [c] if "cfg" in c else [c.get("a"), c.get("b")], "all": [w for w, _ in violations[:20]], "broken": broken})
+        rp = write_replay(PROP, "violation", {"what": what, "cases": [c] if "cfg" in c else ([c["client_case"]] if "client_case" in c else [c.get("a"), c.get("b")]), "all": [w for w, _ in violations[:20]], "broken": broken})
         write_evidence(PROP, tier, coverage, assum, len(violations))
         print(f"VIOLATION property={PROP} replay={rp}")
         log(what)
